@@ -64,7 +64,7 @@ func (w *world) register(ev Ev) {
 		if l.pool {
 			l.cancel = w.s.CM.OnPoolChange(func() {
 				l.n++
-				if l.reenter {
+				if l.reenter && !w.blindNow {
 					w.s.CM.Tip()
 					w.s.CM.PoolTransactions()
 				}
@@ -72,7 +72,7 @@ func (w *world) register(ev Ev) {
 		} else {
 			l.cancel = w.s.CM.OnReorg(func(ci types.ChainIndex) {
 				l.tips = append(l.tips, ci)
-				if l.reenter {
+				if l.reenter && !w.blindNow {
 					w.reenter(l)
 				}
 			})
